@@ -24,8 +24,8 @@ what was appended; the values of the appended elements are the unit's own
 SynthDef._args_to_controls (signature -> one control name per parameter) is
 under contract at the end of this module.
 
-Not under contract (bounded driver C04 only): SynthDef._build_controls (nested
-function with nonlocal state, reshape_like), the writer.
+SynthDef._build_controls (grouping by rate) is under contract in
+synth_buildcontrols.  Bounded driver C04 only: reshape_like itself, the writer.
 """
 import ast
 import z3
